@@ -6,6 +6,17 @@ use crate::engine::{Avx2, Ssse3};
 #[cfg(target_arch = "aarch64")]
 use crate::engine::Neon;
 
+// Verification hook: narrows runtime CPU feature detection by a per-thread mask.
+#[cfg(all(
+    feature = "verif-hooks",
+    any(target_arch = "x86", target_arch = "x86_64")
+))]
+macro_rules! is_x86_feature_detected {
+    ($feature:tt) => {
+        (std::is_x86_feature_detected!($feature) && crate::verif::feature_allowed($feature))
+    };
+}
+
 // ======================================================================
 // DefaultEngine - PUBLIC
 
@@ -67,6 +78,8 @@ impl Engine for DefaultEngine {
         truncated_size: usize,
         skew_delta: usize,
     ) {
+        #[cfg(feature = "verif-hooks")]
+        crate::verif::trace_call(crate::verif::PRIM_FFT);
         self.0.fft(data, pos, size, truncated_size, skew_delta);
     }
 
@@ -78,14 +91,20 @@ impl Engine for DefaultEngine {
         truncated_size: usize,
         skew_delta: usize,
     ) {
+        #[cfg(feature = "verif-hooks")]
+        crate::verif::trace_call(crate::verif::PRIM_IFFT);
         self.0.ifft(data, pos, size, truncated_size, skew_delta);
     }
 
     fn mul(&self, x: &mut [[u8; 64]], log_m: GfElement) {
+        #[cfg(feature = "verif-hooks")]
+        crate::verif::trace_call(crate::verif::PRIM_MUL);
         self.0.mul(x, log_m);
     }
 
     fn eval_poly(erasures: &mut [GfElement; GF_ORDER], truncated_size: usize) {
+        #[cfg(feature = "verif-hooks")]
+        crate::verif::trace_call(crate::verif::PRIM_EVAL_POLY);
         #[cfg(any(target_arch = "x86", target_arch = "x86_64"))]
         {
             if is_x86_feature_detected!("avx2") {
